@@ -81,14 +81,17 @@ def path(eng, acc, task):
     except (AssertionError, ValueError, IndexError, KeyError, TypeError, ZeroDivisionError) as e:
         import traceback
         tb = traceback.extract_tb(e.__traceback__)[-1]
-        # an empty retained set means norm(s) == 0 somewhere: zero state
-        if any(len(idx) == 0 for _, idx in c12.RBI_LOG):
+        # the state is zero on this path iff the truncation routine took its norm(s) == 0 branch somewhere
+        if any(c12.zero_path(eng, given) for given, idx in c12.RBI_LOG if given):
             acc.inc('zero_state_paths')
             return
         candidate(eng, acc, task, 'compress', f'compress:{mode}:raises:{type(e).__name__}@{tb.name}', repr(e), inputs)
         return
-    if any(len(idx) == 0 for _, idx in c12.RBI_LOG):
+    if any(c12.zero_path(eng, given) for given, idx in c12.RBI_LOG if given):
         acc.inc('zero_state_paths')
+        return
+    if any(len(idx) == 0 for _, idx in c12.RBI_LOG):
+        candidate(eng, acc, task, 'compress', f'compress:{mode}:all singular values discarded', 'a truncation discarded every singular value of a non-zero state', inputs)
         return
     fails += tn.invariant_fails(psi, 'mps', 'result')
     if eng.known(S(nrm) >= 0) is not True or eng.known(S(scale) >= 0) is not True:
